@@ -97,7 +97,8 @@ def gen_plan(rng, tier, i, seed):
     if rng.random() < 0.2:
         params["phase"] = rng.choice(["True", "False"])
     cn = None
-    if rng.random() < 0.15:
+    if rng.random() < 0.15 or (fault == "failing_gene" and rng.random() < 0.5):
+        # (with a user-supplied structure the gene nobody sequenced must be refused on replay as well)
         cn = "1,1"
     profile_name = None
     if w.get("exome"):
